@@ -41,19 +41,25 @@ AppendReq(started, oldn, payload, batch) ==
 Cast(mode, n) == IF mode = "legacy" THEN Strip(SubSeq(Pad(n, 8), 1, 4))      \* n mod 2^32
                  ELSE n
 
+\* further named slips (seeded changes): "width_from_mode" takes the old prefix width as 1 << (first byte % 4), which is 8
+\* instead of 5 for the big-integer mode; "empty_batch_noop" returns the input untouched when the batch is empty
 AppendImpl(mode, buf, batch) ==
+  IF mode = "empty_batch_noop" /\ IsZeroDig(batch.n) THEN AOk(buf) ELSE
   IF Len(buf) = 0
   THEN IF DigLess(U32Max, batch.n) THEN AErr                                \* compact_encode_len_to
        ELSE AOk(CompactEnc(batch.n) \o Repeat(batch.item, batch.n))
   ELSE LET c == CompactDec(4, buf, 0) IN
        IF ~c.ok THEN AErr
-       ELSE IF mode = "checked" /\ DigLess(U32Max, batch.n) THEN AErr       \* u32::try_from(items_to_append)
+       ELSE IF mode # "legacy" /\ DigLess(U32Max, batch.n) THEN AErr        \* u32::try_from(items_to_append)
        ELSE LET add == Cast(mode, batch.n)
                 newn == Strip(DigAdd(c.v, add))
             IN IF DigLess(U32Max, newn) THEN AErr                           \* checked_add
-               ELSE LET oldw == CompactLen(c.v)
+               ELSE LET oldw == IF mode = "width_from_mode" THEN 2 ^ (buf[1] % 4) ELSE CompactLen(c.v)
                         neww == CompactLen(newn)
                         body == SubSeq(buf, oldw + 1, Len(buf))
-                    IN AOk(CompactEnc(newn) \o body \o Repeat(batch.item, batch.n))
+                    IN IF oldw = neww
+                       THEN AOk(CompactEnc(newn) \o SubSeq(buf, neww + 1, Len(buf)) \o Repeat(batch.item, batch.n))  \* prefix overwritten in place
+                       ELSE IF oldw > Len(buf) THEN AErr                                                           \* slicing past the end panics
+                       ELSE AOk(CompactEnc(newn) \o body \o Repeat(batch.item, batch.n))                           \* payload moved behind the new prefix
                     \* oldw = neww: prefix overwritten in place; otherwise payload moved: same bytes
 =============================================================================
